@@ -18,8 +18,13 @@ import (
 // C06 — determinism: same input, same output.
 
 var reCreatedOn = regexp.MustCompile(`Created on [^<]*`)
+var reMaxProcs = regexp.MustCompile(`GOMAXPROCS: [0-9]+`)
 
-func maskHTML(b []byte) []byte { return reCreatedOn.ReplaceAll(b, []byte("Created on X")) }
+// maskHTML removes what legitimately varies between two renderings of the same snapshot: the
+// creation time (and GOMAXPROCS, which some checks change themselves).
+func maskHTML(b []byte) []byte {
+	return reMaxProcs.ReplaceAll(reCreatedOn.ReplaceAll(b, []byte("Created on X")), []byte("GOMAXPROCS: N"))
+}
 
 // renderAll is everything observable of one pipeline run.
 type renderAll struct {
